@@ -82,9 +82,16 @@ func decimalFromValue(v reflect.Value) (out decimal.Decimal, ok bool) {
 		return out, false
 	}
 
+	if v.Kind() == reflect.Struct && v.Type() != decimalType && v.Type().ConvertibleTo(decimalType) {
+		// a named type over decimal.Decimal holds the same number
+		v = v.Convert(decimalType)
+	}
+
 	out, ok = v.Interface().(decimal.Decimal)
 	return
 }
+
+var decimalType = reflect.TypeOf(decimal.Decimal{})
 
 // convertNumberKindsToDecimal converts values of any numeric kind (but not numeric strings) to decimals
 func convertNumberKindsToDecimal(val any) (out any) {
@@ -352,7 +359,7 @@ func objectAsMap(val any) any {
 		return val
 	}
 
-	if _, ok := v.Interface().(decimal.Decimal); ok {
+	if _, ok := decimalFromValue(v); ok {
 		return val
 	}
 
